@@ -24,7 +24,7 @@ from . import c20
 
 PROPERTY = "C14"
 LEVEL = "exploration"
-RUNS = {"quick": 640, "thorough": 16000}
+RUNS = {"quick": 800, "thorough": 16000}
 BATCH = 4
 RULE = ("seeded bursts of 2-8 concurrent clients (request kind x protocol x network plan) x server type x "
         "scheduler policy (uniform/sticky/PCT) x pre-emption rate; non-trivial = more than one worker was "
